@@ -876,3 +876,16 @@ func init() {
 		return tuple{len(buf), iface{}}
 	}
 }
+
+func init() {
+	// csrf.isFromCookie compares code pointers through reflect; the value returned by
+	// FromCookie(...) is a closure, whose code pointer never equals FromCookie's own.
+	externals["github.com/gofiber/fiber/v3/middleware/csrf.isFromCookie"] = func(fr *frame, a []value) value {
+		x, _ := a[0].(iface)
+		if f, ok := x.v.(*ssa.Function); ok && f != nil && f.Name() == "FromCookie" {
+			return true
+		}
+		fr.i.stubsUsed["csrf.isFromCookie = function identity (reflect pointer comparison)"] = true
+		return false
+	}
+}
